@@ -116,27 +116,28 @@
             lemma_bv_shift(f, s + 1, g, s2 + 1, l - 1);
         }
     }
+    pub proof fn lemma_bv_unique_at(f: spec_fn(int) -> int, s: int, g: spec_fn(int) -> int, s2: int, l: int, i: int)
+        requires is_bits(f), is_bits(g), 0 <= i < l, bv(f, s, l) == bv(g, s2, l),
+        ensures f(s + i) == g(s2 + i),
+        decreases l
+    {
+        assert(0 <= f(s) <= 1 && 0 <= g(s2) <= 1);
+        let a = bv(f, s + 1, l - 1);
+        let b = bv(g, s2 + 1, l - 1);
+        assert(f(s) + 2 * a == g(s2) + 2 * b);
+        assert(f(s) == g(s2));
+        assert(a == b);
+        if i > 0 {
+            lemma_bv_unique_at(f, s + 1, g, s2 + 1, l - 1, i - 1);
+            assert(s + 1 + (i - 1) == s + i);
+            assert(s2 + 1 + (i - 1) == s2 + i);
+        }
+    }
     pub proof fn lemma_bv_unique(f: spec_fn(int) -> int, s: int, g: spec_fn(int) -> int, s2: int, l: int)
         requires is_bits(f), is_bits(g), l >= 0, bv(f, s, l) == bv(g, s2, l),
         ensures forall|i: int| 0 <= i < l ==> #[trigger] f(s + i) == g(s2 + i),
-        decreases l
     {
-        if l > 0 {
-            assert(0 <= f(s) <= 1 && 0 <= g(s2) <= 1);
-            let a = bv(f, s + 1, l - 1);
-            let b = bv(g, s2 + 1, l - 1);
-            assert(f(s) + 2 * a == g(s2) + 2 * b);
-            assert(f(s) == g(s2));
-            assert(a == b);
-            lemma_bv_unique(f, s + 1, g, s2 + 1, l - 1);
-            assert forall|i: int| 0 <= i < l implies #[trigger] f(s + i) == g(s2 + i) by {
-                if i == 0 { } else {
-                    assert(f(s + 1 + (i - 1)) == g(s2 + 1 + (i - 1)));
-                    assert(s + 1 + (i - 1) == s + i);
-                    assert(s2 + 1 + (i - 1) == s2 + i);
-                }
-            }
-        }
+        assert forall|i: int| 0 <= i < l implies #[trigger] f(s + i) == g(s2 + i) by { lemma_bv_unique_at(f, s, g, s2, l, i); }
     }
     pub proof fn lemma_ibit_is_bits(x: int)
         ensures is_bits(ibitf(x)),
